@@ -562,3 +562,45 @@ func TestC08PrimitiveSegmentation(t *testing.T) {
 		})
 	})
 }
+
+// TestEveryKindC08 (small -rapid.checks; outside the ^TestC08 pattern): every kind of the
+// catalog read one byte at a time and split in two at a few positions, plain and compressed.
+func TestEveryKindC08(t *testing.T) {
+	rapid.Check(t, func(rt *rapid.T) {
+		salt := rapid.IntRange(1, 1<<20).Draw(rt, "salt")
+		var n int64
+		for ki, k := range gen.Kinds {
+			rows := []int{3, 1, 5, 2}[(ki+salt)%4]
+			var kv []ref.Val
+			for i := 0; i < rows; i++ {
+				kv = append(kv, k.Value.Example(salt+13*ki+i))
+			}
+			cols := []colSpec{{Name: "k", Kind: k, Rows: kv}}
+			rev := blockRevs[(ki+salt)%len(blockRevs)]
+			e := &ref.Enc{NoMap: true, LCBump: ki % 3}
+			ref.EncodeBlock(e, rev, refBlock(cols, ref.BlockInfo{BucketNum: -1}))
+			stream, compressed := e.B, (ki+salt)%3 == 0
+			if compressed {
+				f, err := ref.BuildFrame([]byte{ref.MethodLZ4, ref.MethodZSTD, ref.MethodNone}[ki%3], e.B)
+				if err != nil {
+					rt.Fatalf("harness: %v", err)
+				}
+				stream = f
+			}
+			auto := autoInferable(k.T.Name) && ki%2 == 0
+			segsList := [][]int{nil, ones(len(stream)), {1}, {len(stream) / 2}, {len(stream) - 1}, {(salt+ki)%max(1, len(stream)-1) + 1}}
+			for _, segs := range segsList {
+				got, err := decodeSegmented(stream, segs, compressed, rev, cols, auto)
+				if err != nil {
+					rt.Fatalf("%s (%d rows, rev %d, compressed=%v, auto=%v) delivered as %v: %v", k.T.Name, rows, rev, compressed, auto, short(segs), err)
+				}
+				if j, ok := ref.EqualRows(k.T, got[0], kv); !ok {
+					rt.Fatalf("%s delivered as %v: row %d differs", k.T.Name, short(segs), j)
+				}
+				n++
+			}
+		}
+		stats.G().Evals(n)
+		stats.G().Exhaustive(fmt.Sprintf("every one of the %d catalog kinds under one-byte and two-piece delivery", len(gen.Kinds)))
+	})
+}
